@@ -431,7 +431,7 @@ func TestVerifC08(t *testing.T) {
 				detail["last_input_text"] = c08Printable(killer)
 				rp := filepath.Join(dir, fmt.Sprintf("killer-%d.bin", w))
 				// the loop is asynchronous: replay the last few inputs
-				from := len(inputs) - 20
+				from := len(inputs) - 3*c08Batch
 				if from < 0 {
 					from = 0
 				}
@@ -446,7 +446,7 @@ func TestVerifC08(t *testing.T) {
 					}
 					run.Violation("hostile input killed the process", detail)
 				} else {
-					run.Violation("child process died (not reproduced by replaying its last 20 inputs)", detail)
+					run.Violation("child process died (not reproduced by replaying its last 150 inputs)", detail)
 				}
 			} else {
 				run.Violation("child process died before its first input", detail)
